@@ -51,6 +51,10 @@ def to_expr(ast):
     if k == "fn":
         f = dict(len=len_, sum=sum_, min=min_, max=max_, abs=abs_)[ast[1]]
         return f(to_expr(ast[2]))
+    if k == "lam":
+        # ["lam", "py", e]: the same function of the context as e, but an ordinary Python callable (no repr to inline)
+        f = to_expr(ast[2])
+        return (lambda ctx: f(ctx)) if callable(f) else (lambda ctx: f)
     raise ValueError(ast)
 
 
@@ -132,6 +136,8 @@ def evaluate(ast, ctx, obj=None):
         return UNOPS[ast[1]](evaluate(ast[2], ctx, obj))
     if k == "fn":
         return FUNCS[ast[1]](evaluate(ast[2], ctx, obj))
+    if k == "lam":
+        return evaluate(ast[2], ctx, obj)
     raise ValueError(ast)
 
 
@@ -148,4 +154,6 @@ def show(ast):
         return "(%s %s %s)" % (show(ast[2]), ast[1], show(ast[3]))
     if k == "un":
         return "(%s%s)" % (ast[1], show(ast[2]))
+    if k == "lam":
+        return "(lambda ctx: %s)" % show(ast[2])
     return "%s_(%s)" % (ast[1], show(ast[2]))
